@@ -1,9 +1,649 @@
+/-
+C07 — Health checking follows its state machine, back-off schedule and recovery promise.
+
+Model: `Olla.Model.Health` (scheduling record × health breaker × clock, one endpoint).  The clauses of the
+property are the executable monitors of `Olla.Spec.C07` — the same terms the driver evaluates on what the
+real `HTTPHealthChecker` / repository / `RetryHandler` did.  Each theorem says: for EVERY history of
+`check o` / `sched o` / `proxyFail` / `tick d` operations the observable trace of the model satisfies the
+clause.  Proof: a simulation invariant `CInv` between the monitor's bookkeeping and the model state
+(failure counts agree, `BackoffMultiplier = 1,2,4,8,12,12,…`, the breaker's probe slot is free between
+checks, an open breaker was opened by ≥ threshold real failures at the recorded time), preserved by every
+operation; induction over the history.  The literal schedule and the 60 s cap of the specification are
+tied to the compiled code by the `gen_*` side conditions (decided on the regenerated tables).
+
+`next_delay_le_cap` of the design is `failure_delay_capped(_partial)`; `reset_on_success` is the success
+half of `backoff_schedule` (and of `recovers_on_first_success`).
+-/
 import Olla.Model.Health
 import Olla.Spec.C07
 
+set_option linter.unusedSimpArgs false
+set_option linter.unnecessarySimpa false
+
 namespace Olla.Props.C07
 open Olla.Model.Health Olla.Spec.C07
+open Olla.Model.Breaker (Variant HealthCB HCfg genHCfg activeHealth)
 
-theorem placeholder : True := trivial
+
+/-- BackoffMultiplier after f consecutive failures: 1 (none), 2, 4, 8, 12, 12, … -/
+def multLit : Nat → Nat
+  | 0 => 1 | 1 => 2 | 2 => 4 | 3 => 8 | _ => 12
+
+/-- What the model reports after one operation, in the vocabulary of the specification. -/
+def obsOf (r : St × Out) : Obs :=
+  { ran := r.2.ran, reached := r.2.reached, status := r.1.ep.status, delay := r.1.delay, fired := if r.2.fired then 1 else 0 }
+
+/-- Observable trace of the model on a history. -/
+def trace (v vb : Variant) (c : Cfg) : St → List Op → List (Op × Obs)
+  | _, [] => []
+  | s, op :: ops => (op, obsOf (step v vb c s op)) :: trace v vb c (step v vb c s op).1 ops
+
+structure CInv (c : Cfg) (g : Ghost) (s : St) : Prop where
+  now : g.now = s.cb.now
+  status : g.status = s.ep.status
+  fails : g.fails = s.ep.failures
+  mult : s.ep.mult = multLit s.ep.failures
+  la : s.cb.lastAttempt = none
+  rf : g.realFails = s.cb.failures
+  opn : s.cb.isOpen = true → c.breaker.threshold ≤ s.cb.failures ∧ g.lastRealFailAt = some s.cb.lastFailure ∧ s.cb.lastFailure = s.lastReal
+  lr : g.lastRealAt = s.lastReal
+
+private theorem multLit_succ (f : Nat) : (if multLit f ≤ 1 then 2 else min (multLit f * 2) 12) = multLit (f + 1) := by
+  match f with
+  | 0 | 1 | 2 | 3 => decide
+  | n + 4 => simp [multLit]
+
+private theorem multLit_gt (f : Nat) : multLit f ≤ 1 ↔ f = 0 := by
+  match f with
+  | 0 => decide
+  | 1 | 2 | 3 => decide
+  | n + 4 => simp [multLit]
+
+private theorem classify_cases (o : Outcome) : classify o = .healthy ∨ classify o = .busy ∨ classify o = .offline ∨ classify o = .unhealthy := by
+  cases o <;> simp [classify, statusOfHttp, statusOfErr] <;> (repeat' split) <;> simp
+
+private theorem cinv_step (v vb : Variant) (c : Cfg) (hM : c.maxMult = 12) (g : Ghost) (s : St) (op : Op) (h : CInv c g s) :
+    CInv c (g.step op (obsOf (step v vb c s op))) (step v vb c s op).1 := by
+  obtain ⟨h1, h2, h3, h4, h5, h6, h7, h8⟩ := h
+  obtain ⟨⟨st, f, m, lc, nc⟩, ⟨cf, clf, cla, cio, now⟩, cbs, lr⟩ := s
+  simp only at h1 h2 h3 h4 h5 h6 h7 h8
+  subst h5
+  cases op with
+  | tick d => constructor <;> simp_all [Ghost.step, obsOf, step]
+  | proxyFail =>
+    constructor <;> simp_all [Ghost.step, obsOf, step, doProxyFail]
+    exact multLit_succ f
+  | check o =>
+    rcases classify_cases o with hc | hc | hc | hc <;> cases cio <;>
+      (first
+        | (by_cases hto : clf + c.breaker.timeout < now <;>
+            constructor <;> simp_all [Ghost.step, obsOf, step, doCheck, calcBackoff, HealthCB.isOpenCall, HealthCB.recordFailure, HealthCB.recordSuccess, statusOfErr, St.delay, -Int.not_lt, -Int.not_le])
+        )
+    all_goals first
+      | rfl
+      | omega
+      | (have hs := multLit_succ f
+         by_cases hm : multLit f ≤ 1
+         · rw [if_pos hm] at hs ⊢; cases vb <;> simp [hs]
+         · rw [if_neg hm] at hs ⊢; simp [hs])
+  | sched o =>
+    by_cases hdue : now < nc
+    · constructor <;> simp_all [Ghost.step, obsOf, step]
+    · simp only [step, if_neg hdue]
+      rcases classify_cases o with hc | hc | hc | hc <;> cases cio <;>
+        (first
+          | (by_cases hto : clf + c.breaker.timeout < now <;>
+              constructor <;> simp_all [Ghost.step, obsOf, step, doCheck, calcBackoff, HealthCB.isOpenCall, HealthCB.recordFailure, HealthCB.recordSuccess, statusOfErr, St.delay, -Int.not_lt, -Int.not_le])
+          )
+      all_goals first
+        | rfl
+        | omega
+        | (have hs := multLit_succ f
+           by_cases hm : multLit f ≤ 1
+           · rw [if_pos hm] at hs ⊢; cases vb <;> simp [hs]
+           · rw [if_neg hm] at hs ⊢; simp [hs])
+
+def paramsOf (c : Cfg) (ideal : Bool) : Params :=
+  { interval := c.interval, breakerTimeout := c.breaker.timeout, threshold := c.breaker.threshold, ideal := ideal }
+
+private theorem seqLit_succ (f : Nat) (hf : 1 ≤ f) : seqLit (f + 1) = (multLit f : Int) := by
+  match f with
+  | 1 | 2 | 3 => decide
+  | n + 4 => simp [seqLit, multLit]
+
+macro "unfold_all" : tactic => `(tactic| simp_all [clauseOk, obsOf, step, doCheck, doProxyFail, calcBackoff, outcomeOf, paramsOf,
+  HealthCB.isOpenCall, HealthCB.recordFailure, HealthCB.recordSuccess, statusOfErr, St.delay, -Int.not_lt, -Int.not_le])
+
+/-- The regenerated healthy range is the literal 2xx range of the property. -/
+theorem gen_healthy_range_is_2xx :
+    Olla.Gen.Health.healthyRangeStart = 200 ∧ Olla.Gen.Health.healthyRangeEnd = 300 := by decide
+
+private theorem classify_healthy_iff (o : Outcome) : (classify o == Status.healthy) = is2xxFast o := by
+  cases o with
+  | http code slow =>
+    simp only [classify, statusOfHttp, is2xxFast, gen_healthy_range_is_2xx.1, gen_healthy_range_is_2xx.2]
+    by_cases h : 200 ≤ code ∧ code < 300 <;> cases slow <;> simp [h]
+  | _ => simp [classify, statusOfErr, is2xxFast]
+
+private theorem classify_healthy_iff' (o : Outcome) : classify o = Status.healthy ↔ is2xxFast o = true := by
+  rw [← classify_healthy_iff]; simp
+
+private theorem clause_healthyIff (v vb : Variant) (c : Cfg) (ideal : Bool) (g : Ghost) (s : St) (op : Op) (h : CInv c g s) :
+    clauseOk (paramsOf c ideal) .healthyIff g op (obsOf (step v vb c s op)) = true := by
+  obtain ⟨h1, h2, h3, h4, h5, h6, h7, h8⟩ := h
+  obtain ⟨⟨st, f, m, lc, nc⟩, ⟨cf, clf, cla, cio, now⟩, cbs, lr⟩ := s
+  simp only at h1 h2 h3 h4 h5 h6 h7 h8
+  subst h5
+  cases op with
+  | tick d => simp [clauseOk, outcomeOf]
+  | proxyFail => simp [clauseOk, outcomeOf]
+  | check o =>
+    cases cio <;> (try by_cases hto : clf + c.breaker.timeout < now) <;> unfold_all <;> simp [classify_healthy_iff]
+  | sched o =>
+    by_cases hdue : now < nc
+    · simp [clauseOk, outcomeOf, obsOf, step, hdue]
+    · cases cio <;> (try by_cases hto : clf + c.breaker.timeout < now) <;> unfold_all <;> simp [classify_healthy_iff]
+
+macro "destruct_state" : tactic => `(tactic| (
+  rename_i h
+  obtain ⟨h1, h2, h3, h4, h5, h6, h7, h8⟩ := h
+  rename_i s
+  obtain ⟨⟨st, f, m, lc, nc⟩, ⟨cf, clf, cla, cio, now⟩, cbs, lr⟩ := s
+  simp only at h1 h2 h3 h4 h5 h6 h7 h8
+  subst h5))
+
+private theorem clause_classification (v vb : Variant) (c : Cfg) (ideal : Bool) (g : Ghost) (s : St) (op : Op) (h : CInv c g s) :
+    clauseOk (paramsOf c ideal) .classification g op (obsOf (step v vb c s op)) = true := by
+  obtain ⟨h1, h2, h3, h4, h5, h6, h7, h8⟩ := h
+  obtain ⟨⟨st, f, m, lc, nc⟩, ⟨cf, clf, cla, cio, now⟩, cbs, lr⟩ := s
+  simp only at h1 h2 h3 h4 h5 h6 h7 h8
+  subst h5
+  have hcl : ∀ o : Outcome, (match o with
+      | .netErr | .timeout => classify o == Status.offline
+      | .otherErr => classify o == Status.unhealthy
+      | .http code slow => if !slow && !(decide (200 ≤ code ∧ code < 300)) then classify o == Status.unhealthy else true) = true := by
+    intro o
+    cases o with
+    | http code slow =>
+      simp only [classify, statusOfHttp, gen_healthy_range_is_2xx.1, gen_healthy_range_is_2xx.2]
+      by_cases h : 200 ≤ code ∧ code < 300 <;> cases slow <;> simp [h]
+    | _ => simp [classify, statusOfErr]
+  cases op with
+  | tick d => simp [clauseOk, outcomeOf]
+  | proxyFail => simp [clauseOk, outcomeOf]
+  | check o =>
+    cases cio <;> (try by_cases hto : clf + c.breaker.timeout < now) <;> unfold_all
+    all_goals exact hcl o
+  | sched o =>
+    by_cases hdue : now < nc
+    · simp [clauseOk, outcomeOf, obsOf, step, hdue]
+    · cases cio <;> (try by_cases hto : clf + c.breaker.timeout < now) <;> unfold_all
+      all_goals exact hcl o
+
+private theorem clause_callback (v vb : Variant) (c : Cfg) (ideal : Bool) (g : Ghost) (s : St) (op : Op) (h : CInv c g s) :
+    clauseOk (paramsOf c ideal) .callback g op (obsOf (step v vb c s op)) = true := by
+  obtain ⟨h1, h2, h3, h4, h5, h6, h7, h8⟩ := h
+  obtain ⟨⟨st, f, m, lc, nc⟩, ⟨cf, clf, cla, cio, now⟩, cbs, lr⟩ := s
+  simp only at h1 h2 h3 h4 h5 h6 h7 h8
+  subst h5
+  cases op with
+  | tick d => simp [clauseOk, obsOf, step]
+  | proxyFail => simp [clauseOk, obsOf, step, doProxyFail]
+  | check o =>
+    rcases classify_cases o with hc | hc | hc | hc <;> cases cio <;> (try by_cases hto : clf + c.breaker.timeout < now) <;> cases st <;> unfold_all
+  | sched o =>
+    by_cases hdue : now < nc
+    · simp [clauseOk, obsOf, step, hdue]
+    · rcases classify_cases o with hc | hc | hc | hc <;> cases cio <;> (try by_cases hto : clf + c.breaker.timeout < now) <;> cases st <;> unfold_all
+
+private theorem clause_proxyFail (v vb : Variant) (c : Cfg) (ideal : Bool) (g : Ghost) (s : St) (op : Op) :
+    clauseOk (paramsOf c ideal) .proxyFail g op (obsOf (step v vb c s op)) = true := by
+  cases op <;> simp [clauseOk, obsOf, step, doProxyFail]
+
+private theorem clause_realProbe (v vb : Variant) (c : Cfg) (ideal : Bool) (g : Ghost) (s : St) (op : Op) (h : CInv c g s) :
+    clauseOk (paramsOf c ideal) .realProbe g op (obsOf (step v vb c s op)) = true := by
+  obtain ⟨h1, h2, h3, h4, h5, h6, h7, h8⟩ := h
+  obtain ⟨⟨st, f, m, lc, nc⟩, ⟨cf, clf, cla, cio, now⟩, cbs, lr⟩ := s
+  simp only at h1 h2 h3 h4 h5 h6 h7 h8
+  subst h5
+  cases op with
+  | tick d => simp [clauseOk, outcomeOf]
+  | proxyFail => simp [clauseOk, outcomeOf]
+  | check o =>
+    cases cio <;> (try by_cases hto : clf + c.breaker.timeout < now) <;> unfold_all
+    all_goals omega
+  | sched o =>
+    by_cases hdue : now < nc
+    · simp [clauseOk, outcomeOf, obsOf, step, hdue]
+    · cases cio <;> (try by_cases hto : clf + c.breaker.timeout < now) <;> unfold_all
+      all_goals omega
+
+/-- Delay after a failed check, in the literal terms of the property. -/
+private theorem calc_fail (vb : Variant) (c : Cfg) (hcap : c.cap = capLit) (f : Nat) :
+    (c.interval * seqLit (f + 1) ≤ capLit → (calcBackoff vb c (multLit f) false).1 = c.interval * seqLit (f + 1)) ∧
+    ((vb = .fixed ∨ c.interval ≤ c.cap ∨ 1 ≤ f) → (calcBackoff vb c (multLit f) false).1 ≤ capLit ∧
+      (c.interval * seqLit (f + 1) > capLit → (calcBackoff vb c (multLit f) false).1 = capLit)) := by
+  match f with
+  | 0 =>
+    cases vb <;> simp [calcBackoff, multLit, seqLit, hcap] <;> omega
+  | n + 1 =>
+    have h1 : ¬ multLit (n + 1) ≤ 1 := by rw [multLit_gt]; omega
+    have h2 := seqLit_succ (n + 1) (by omega)
+    simp only [calcBackoff, if_neg h1, h2]
+    generalize c.interval * (multLit (n + 1) : Int) = x
+    simp [hcap]; omega
+
+private theorem proxy_delay (c : Cfg) (hcap : c.cap = capLit) (f : Nat) :
+    let d := min (if multLit f ≤ 1 then c.interval else c.interval * (multLit f : Int)) c.cap
+    (c.interval * seqLit (f + 1) ≤ capLit → d = c.interval * seqLit (f + 1)) ∧ d ≤ capLit ∧
+      (c.interval * seqLit (f + 1) > capLit → d = capLit) := by
+  match f with
+  | 0 => simp [multLit, seqLit, hcap]; omega
+  | n + 1 =>
+    have h1 : ¬ multLit (n + 1) ≤ 1 := by rw [multLit_gt]; omega
+    have h2 := seqLit_succ (n + 1) (by omega)
+    simp only [if_neg h1, h2]
+    generalize c.interval * (multLit (n + 1) : Int) = x
+    simp [hcap]; omega
+
+private theorem calc_succ (vb : Variant) (c : Cfg) (m : Nat) : (calcBackoff vb c m true).1 = c.interval := by simp [calcBackoff]
+
+private theorem clause_schedule (v vb : Variant) (c : Cfg) (hcap : c.cap = capLit) (ideal : Bool) (g : Ghost) (s : St) (op : Op) (h : CInv c g s) :
+    clauseOk (paramsOf c ideal) .schedule g op (obsOf (step v vb c s op)) = true := by
+  obtain ⟨h1, h2, h3, h4, h5, h6, h7, h8⟩ := h
+  obtain ⟨⟨st, f, m, lc, nc⟩, ⟨cf, clf, cla, cio, now⟩, cbs, lr⟩ := s
+  simp only at h1 h2 h3 h4 h5 h6 h7 h8
+  subst h5 h4
+  have hf := (calc_fail vb c hcap f).1
+  have hp := (proxy_delay c hcap f).1
+  cases op with
+  | tick d => simp [clauseOk, obsOf, step]
+  | proxyFail =>
+    simp [clauseOk, obsOf, step, doProxyFail, St.delay, paramsOf, h3]
+    (first
+        | omega
+        | (by_cases hle : c.interval * seqLit (f + 1) ≤ capLit
+           · right; first | (have := hp hle; omega) | (have := hf hle; omega)
+           · left; omega))
+  | check o =>
+    rcases classify_cases o with hc | hc | hc | hc <;> cases cio <;> (try by_cases hto : clf + c.breaker.timeout < now) <;>
+      simp [clauseOk, obsOf, step, doCheck, paramsOf, HealthCB.isOpenCall, statusOfErr, St.delay, hc, h3, hto, calc_succ] <;>
+      (first
+        | omega
+        | (by_cases hle : c.interval * seqLit (f + 1) ≤ capLit
+           · right; first | (have := hp hle; omega) | (have := hf hle; omega)
+           · left; omega))
+  | sched o =>
+    by_cases hdue : now < nc
+    · simp [clauseOk, obsOf, step, hdue]
+    · simp only [step, if_neg hdue]
+      rcases classify_cases o with hc | hc | hc | hc <;> cases cio <;> (try by_cases hto : clf + c.breaker.timeout < now) <;>
+        simp [clauseOk, obsOf, doCheck, paramsOf, HealthCB.isOpenCall, statusOfErr, St.delay, hc, h3, hto, calc_succ] <;>
+        (first
+        | omega
+        | (by_cases hle : c.interval * seqLit (f + 1) ≤ capLit
+           · right; first | (have := hp hle; omega) | (have := hf hle; omega)
+           · left; omega))
+
+private theorem clause_capped (v vb : Variant) (c : Cfg) (hcap : c.cap = capLit) (hok : vb = .fixed ∨ c.interval ≤ c.cap) (ideal : Bool)
+    (g : Ghost) (s : St) (op : Op) (h : CInv c g s) :
+    clauseOk (paramsOf c ideal) .capped g op (obsOf (step v vb c s op)) = true := by
+  obtain ⟨h1, h2, h3, h4, h5, h6, h7, h8⟩ := h
+  obtain ⟨⟨st, f, m, lc, nc⟩, ⟨cf, clf, cla, cio, now⟩, cbs, lr⟩ := s
+  simp only at h1 h2 h3 h4 h5 h6 h7 h8
+  subst h5 h4
+  have hf := (calc_fail vb c hcap f).2 (by rcases hok with h | h; exact .inl h; exact .inr (.inl h))
+  have hp := (proxy_delay c hcap f).2
+  cases op with
+  | tick d => simp [clauseOk, obsOf, step]
+  | proxyFail =>
+    simp [clauseOk, obsOf, step, doProxyFail, St.delay, paramsOf, h3]
+    (first
+        | omega
+        | (have ⟨hq1, hq2⟩ := hf; constructor
+           · omega
+           · intro hgt; have := hq2 hgt; omega)
+        | (have ⟨hq1, hq2⟩ := hp; constructor
+           · omega
+           · intro hgt; have := hq2 hgt; omega))
+  | check o =>
+    rcases classify_cases o with hc | hc | hc | hc <;> cases cio <;> (try by_cases hto : clf + c.breaker.timeout < now) <;>
+      simp [clauseOk, obsOf, step, doCheck, paramsOf, HealthCB.isOpenCall, statusOfErr, St.delay, hc, h3, hto, calc_succ] <;>
+      (first
+        | omega
+        | (have ⟨hq1, hq2⟩ := hf; constructor
+           · omega
+           · intro hgt; have := hq2 hgt; omega)
+        | (have ⟨hq1, hq2⟩ := hp; constructor
+           · omega
+           · intro hgt; have := hq2 hgt; omega))
+  | sched o =>
+    by_cases hdue : now < nc
+    · simp [clauseOk, obsOf, step, hdue]
+    · simp only [step, if_neg hdue]
+      rcases classify_cases o with hc | hc | hc | hc <;> cases cio <;> (try by_cases hto : clf + c.breaker.timeout < now) <;>
+        simp [clauseOk, obsOf, doCheck, paramsOf, HealthCB.isOpenCall, statusOfErr, St.delay, hc, h3, hto, calc_succ] <;>
+        (first
+        | omega
+        | (have ⟨hq1, hq2⟩ := hf; constructor
+           · omega
+           · intro hgt; have := hq2 hgt; omega)
+        | (have ⟨hq1, hq2⟩ := hp; constructor
+           · omega
+           · intro hgt; have := hq2 hgt; omega))
+
+private theorem calc_bounds (vb : Variant) (c : Cfg) (h0 : 0 ≤ c.interval) (hle : c.interval ≤ c.cap) (m : Nat) (b : Bool) :
+    0 ≤ (calcBackoff vb c m b).1 ∧ (calcBackoff vb c m b).1 ≤ c.cap := by
+  have hm : 0 ≤ c.interval * (m : Int) := Int.mul_nonneg h0 (Int.natCast_nonneg m)
+  cases b <;> cases vb <;> simp only [calcBackoff] <;> (repeat' split) <;> simp <;> omega
+
+structure IInv (c : Cfg) (s : St) : Prop where
+  gap : s.ep.nextCheck - s.lastReal ≤ c.cap + c.breaker.timeout
+  due : s.cb.now ≤ s.ep.nextCheck
+
+private theorem ideal_step (v vb : Variant) (c : Cfg) (h0 : 0 ≤ c.interval) (hle : c.interval ≤ c.cap) (hT : 0 ≤ c.breaker.timeout)
+    (g : Ghost) (s : St) (o : Outcome) (h : CInv c g s) (hi : IInv c s) :
+    let d := (s.ep.nextCheck - s.cb.now).toNat
+    let s1 := (step v vb c s (.tick d)).1
+    let g1 := g.step (.tick d) (obsOf (step v vb c s (.tick d)))
+    clauseOk (paramsOf c true) .gapBound g (.tick d) (obsOf (step v vb c s (.tick d))) = true ∧
+    (c.cap = capLit → clauseOk (paramsOf c true) .gapBound g1 (.check o) (obsOf (step v vb c s1 (.check o))) = true) ∧
+    IInv c (step v vb c s1 (.check o)).1 := by
+  obtain ⟨h1, h2, h3, h4, h5, h6, h7, h8⟩ := h
+  obtain ⟨hg, hd⟩ := hi
+  obtain ⟨⟨st, f, m, lc, nc⟩, ⟨cf, clf, cla, cio, now⟩, cbs, lr⟩ := s
+  simp only at h1 h2 h3 h4 h5 h6 h7 h8 hg hd
+  subst h5
+  have hb := calc_bounds vb c h0 hle m
+  have hnow : now + ((nc - now).toNat : Int) = nc := by omega
+  have hmax : now + max (nc - now) 0 = nc := by omega
+  refine ⟨by simp [clauseOk, obsOf, step], ?_, ?_⟩
+  · intro hcap
+    simp only [clauseOk, obsOf, step, doCheck, paramsOf, Ghost.step, hnow, h8, h1]
+    simp
+    right; omega
+  · cases cio
+    · constructor <;> simp [step, doCheck, HealthCB.isOpenCall, HealthCB.recordSuccess, HealthCB.recordFailure, hnow, hmax] <;>
+        (try split) <;> (try dsimp only) <;> (have := hb (decide (classify o = Status.healthy)); omega)
+    · have ⟨_, _, hl⟩ := h7 rfl
+      by_cases hto : clf + c.breaker.timeout < nc
+      · constructor <;> simp [step, doCheck, HealthCB.isOpenCall, HealthCB.recordSuccess, HealthCB.recordFailure, hnow, hmax, hto] <;>
+          (try split) <;> (try dsimp only) <;> (have := hb (decide (classify o = Status.healthy)); omega)
+      · constructor <;> simp [step, doCheck, HealthCB.isOpenCall, hnow, hmax, hto, statusOfErr] <;> (have := hb false; omega)
+
+private theorem holdsFrom_of_inv (v vb : Variant) (c : Cfg) (P : Params) (k : Clause) (R : Ghost → St → Prop)
+    (hstep : ∀ g s op, R g s → clauseOk P k g op (obsOf (step v vb c s op)) = true ∧
+      R (g.step op (obsOf (step v vb c s op))) (step v vb c s op).1) :
+    ∀ ops g s, R g s → holdsFrom P k g (trace v vb c s ops) = true := by
+  intro ops
+  induction ops with
+  | nil => intro g s _; simp [trace, holdsFrom]
+  | cons op ops ih =>
+    intro g s h
+    have := hstep g s op h
+    simp only [trace, holdsFrom, Bool.and_eq_true]
+    exact ⟨this.1, ih _ _ this.2⟩
+
+/-! # Side conditions on the regenerated tables -/
+
+/-- A freshly loaded endpoint: status unknown, no failures, multiplier 1. -/
+theorem gen_initial_record :
+    Status.ofName Olla.Gen.Health.initialStatus = .unknown ∧ Olla.Gen.Health.initialFailures = 0 ∧
+    Olla.Gen.Health.initialMultiplier = 1 := by decide
+
+/-- The constants `calculateBackoff` uses are the literal 12 and 60 s of the property, and the aliases in
+    package health agree with the shared constants `markEndpointUnhealthy` uses. -/
+theorem gen_backoff_constants :
+    Olla.Gen.Health.healthMaxMultiplierAlias = 12 ∧ Olla.Gen.Health.healthCapAlias = capLit ∧
+    Olla.Gen.Health.backoffMaxMultiplier = Olla.Gen.Health.healthMaxMultiplierAlias ∧
+    Olla.Gen.Health.backoffCap = Olla.Gen.Health.healthCapAlias := by decide
+
+/-- The model's `calcBackoff` reproduces the compiled `calculateBackoff` on its whole tabulated domain
+    (intervals 1 s, 7 s, 90 s × multipliers 0..16 × success/failure). -/
+theorem gen_backoffTable_matches_model :
+    ∀ r ∈ Olla.Gen.Health.backoffTable,
+      calcBackoff activeBackoff (genCfg r.1) r.2.1 r.2.2.1 = (r.2.2.2.1, r.2.2.2.2) := by decide
+
+/-- `determineStatus` of the compiled code, run-length encoded over status codes 0..999, is the model's. -/
+theorem gen_statusRanges_match_model :
+    ∀ r ∈ Olla.Gen.Health.statusRanges, ∀ code, r.1 ≤ code → code ≤ r.2.1 → (statusOfHttp code r.2.2.1).name = r.2.2.2 := by
+  intro r hr code h1 h2
+  simp only [Olla.Gen.Health.statusRanges, List.mem_cons, List.mem_nil_iff, or_false] at hr
+  rcases hr with rfl | rfl | rfl | rfl <;>
+    simp only [statusOfHttp, gen_healthy_range_is_2xx.1, gen_healthy_range_is_2xx.2] at * <;>
+    (repeat' split) <;> first | rfl | omega | simp_all
+
+/-- `contiguous lo l`: the inclusive ranges of `l` follow each other without gap starting at `lo`; returns the end. -/
+def contiguousFrom : Nat → List (Nat × Nat) → Option Nat
+  | lo, [] => some lo
+  | lo, (a, b) :: rest => if a = lo ∧ a ≤ b then contiguousFrom (b + 1) rest else none
+
+/-- The tabulated ranges cover 0..999 for fast and for slow answers without gaps. -/
+theorem gen_statusRanges_cover :
+    ∀ slow : Bool, contiguousFrom 0 ((Olla.Gen.Health.statusRanges.filter (fun r => r.2.2.1 == slow)).map (fun r => (r.1, r.2.1))) = some 1000 := by
+  decide
+
+def errClassOfName (s : String) : ErrClass :=
+  if s = "network" then .network else if s = "timeout" then .timeout else if s = "circuit_open" then .circuitOpen else .httpError
+
+/-- `classifyError`/`determineStatus` on real net/url/context errors agree with the model's error classes. -/
+theorem gen_errorTable_matches_model :
+    ∀ r ∈ Olla.Gen.Health.errorTable, (statusOfErr (errClassOfName r.2.2.1)).name = r.2.1 := by decide
+
+/-- A slow answer (status `busy`) cannot occur with the production HTTP client: its timeout is shorter. -/
+theorem gen_slow_unreachable : Olla.Gen.Health.clientTimeout < Olla.Gen.Health.slowThreshold := by decide
+
+/-- `healthy` is routable; `offline`, `unhealthy`, `unknown` are not. -/
+theorem gen_routable :
+    ("healthy", true) ∈ Olla.Gen.Health.statusRoutable ∧ ("offline", false) ∈ Olla.Gen.Health.statusRoutable ∧
+    ("unhealthy", false) ∈ Olla.Gen.Health.statusRoutable ∧ ("unknown", false) ∈ Olla.Gen.Health.statusRoutable := by decide
+
+/-- Validation accepts check intervals above the 60 s cap (so they are inside the property's quantifier). -/
+theorem gen_interval_above_cap_accepted :
+    ∃ r ∈ Olla.Gen.Health.acceptedTimings, r.1 > capLit ∧ r.2.2 = true := by decide
+
+private theorem genCfg_facts (interval : Int) : (genCfg interval).maxMult = 12 ∧ (genCfg interval).cap = capLit ∧ (genCfg interval).interval = interval :=
+  ⟨gen_backoff_constants.1, gen_backoff_constants.2.1, rfl⟩
+
+private theorem cinv_init (c : Cfg) (t0 : Int) : CInv c (Ghost.init t0) (St.init t0) := by
+  have ⟨h1, h2, h3⟩ := gen_initial_record
+  constructor <;> simp [Ghost.init, St.init, HealthCB.init, h1, h2, h3, multLit]
+
+/-! # The property theorems (all histories of check / sched / proxyFail / tick operations) -/
+
+/-- Every clause except `capped` and `gapBound`, for every configuration whose multiplier cap is 12 and
+    whose delay cap is 60 s. -/
+theorem all_clauses (v vb : Variant) (c : Cfg) (hM : c.maxMult = 12) (hcap : c.cap = capLit) (ideal : Bool) (k : Clause)
+    (hk : k = .healthyIff ∨ k = .classification ∨ k = .schedule ∨ k = .realProbe ∨ k = .callback ∨ k = .proxyFail ∨
+          (k = .capped ∧ (vb = .fixed ∨ c.interval ≤ c.cap)) ∨ (k = .gapBound ∧ ideal = false))
+    (t0 : Int) (ops : List Op) :
+    holds (paramsOf c ideal) k t0 (trace v vb c (St.init t0) ops) = true := by
+  apply holdsFrom_of_inv v vb c (paramsOf c ideal) k (CInv c) _ ops _ _ (cinv_init c t0)
+  intro g s op h
+  refine ⟨?_, cinv_step v vb c hM g s op h⟩
+  rcases hk with rfl | rfl | rfl | rfl | rfl | rfl | ⟨rfl, hok⟩ | ⟨rfl, rfl⟩
+  · exact clause_healthyIff v vb c ideal g s op h
+  · exact clause_classification v vb c ideal g s op h
+  · exact clause_schedule v vb c hcap ideal g s op h
+  · exact clause_realProbe v vb c ideal g s op h
+  · exact clause_callback v vb c ideal g s op h
+  · exact clause_proxyFail v vb c ideal g s op
+  · exact clause_capped v vb c hcap hok ideal g s op h
+  · simp [clauseOk, paramsOf]
+
+/-- **Healthy ⇔ the latest check reached the endpoint and got a (fast) 2xx answer.** -/
+theorem healthy_iff (v vb : Variant) (c : Cfg) (hM : c.maxMult = 12) (hcap : c.cap = capLit) (ideal : Bool) (t0 : Int) (ops : List Op) :
+    holds (paramsOf c ideal) .healthyIff t0 (trace v vb c (St.init t0) ops) = true :=
+  all_clauses v vb c hM hcap ideal _ (.inl rfl) t0 ops
+
+/-- **Connection error / timeout ⇒ offline, error status / other error ⇒ unhealthy, short-circuited ⇒ not healthy.** -/
+theorem classification (v vb : Variant) (c : Cfg) (hM : c.maxMult = 12) (hcap : c.cap = capLit) (ideal : Bool) (t0 : Int) (ops : List Op) :
+    holds (paramsOf c ideal) .classification t0 (trace v vb c (St.init t0) ops) = true :=
+  all_clauses v vb c hM hcap ideal _ (.inr (.inl rfl)) t0 ops
+
+/-- **Back-off schedule, literally:** after the f-th consecutive failure (failed check, short-circuited check or
+    proxy-detected failure) the delay is `check_interval × 1,2,4,8,12,12,…` whenever that is ≤ 60 s, and it is
+    `check_interval` again after the first success. -/
+theorem backoff_schedule (v vb : Variant) (c : Cfg) (hM : c.maxMult = 12) (hcap : c.cap = capLit) (ideal : Bool) (t0 : Int) (ops : List Op) :
+    holds (paramsOf c ideal) .schedule t0 (trace v vb c (St.init t0) ops) = true :=
+  all_clauses v vb c hM hcap ideal _ (.inr (.inr (.inl rfl))) t0 ops
+
+/-- **… capped at 60 s** — full strength for the repaired `calculateBackoff` (fixes/C07-first-failure-cap.patch). -/
+theorem failure_delay_capped (v : Variant) (c : Cfg) (hM : c.maxMult = 12) (hcap : c.cap = capLit) (ideal : Bool) (t0 : Int) (ops : List Op) :
+    holds (paramsOf c ideal) .capped t0 (trace v .fixed c (St.init t0) ops) = true :=
+  all_clauses v .fixed c hM hcap ideal _ (.inr (.inr (.inr (.inr (.inr (.inr (.inl ⟨rfl, .inl rfl⟩))))))) t0 ops
+
+/-- Pinned tree: the cap holds for every endpoint whose `check_interval` does not itself exceed 60 s. -/
+theorem failure_delay_capped_partial (v vb : Variant) (c : Cfg) (hM : c.maxMult = 12) (hcap : c.cap = capLit)
+    (hiv : c.interval ≤ c.cap) (ideal : Bool) (t0 : Int) (ops : List Op) :
+    holds (paramsOf c ideal) .capped t0 (trace v vb c (St.init t0) ops) = true :=
+  all_clauses v vb c hM hcap ideal _ (.inr (.inr (.inr (.inr (.inr (.inr (.inl ⟨rfl, .inr hiv⟩))))))) t0 ops
+
+/-- **Pinned tree: with `check_interval` = 120 s (accepted by validation) the first failed check schedules the
+    next one 120 s later — not capped at 60 s.** -/
+theorem failure_delay_capped_witness :
+    ¬ holds (paramsOf (genCfg 120000000000) false) .capped 0
+        (trace .pinned .pinned (genCfg 120000000000) (St.init 0) [.check .netErr]) = true := by
+  decide
+
+/-- **A check is short-circuited by the breaker only after ≥ threshold real failures in a row and only within
+    `breakerTimeout` of the last real failure** — i.e. once the breaker timeout has passed, the check is real. -/
+theorem real_probe_when_due (v vb : Variant) (c : Cfg) (hM : c.maxMult = 12) (hcap : c.cap = capLit) (ideal : Bool) (t0 : Int) (ops : List Op) :
+    holds (paramsOf c ideal) .realProbe t0 (trace v vb c (St.init t0) ops) = true :=
+  all_clauses v vb c hM hcap ideal _ (.inr (.inr (.inr (.inl rfl)))) t0 ops
+
+/-- **One recovery callback per not-healthy (≠ unknown) → healthy transition and none otherwise**, step by step. -/
+theorem callback_per_transition (v vb : Variant) (c : Cfg) (hM : c.maxMult = 12) (hcap : c.cap = capLit) (ideal : Bool) (t0 : Int) (ops : List Op) :
+    holds (paramsOf c ideal) .callback t0 (trace v vb c (St.init t0) ops) = true :=
+  all_clauses v vb c hM hcap ideal _ (.inr (.inr (.inr (.inr (.inl rfl))))) t0 ops
+
+/-- A proxy-detected failure rewrites the record as offline without probing. -/
+theorem proxy_failure_marks_offline (v vb : Variant) (c : Cfg) (hM : c.maxMult = 12) (hcap : c.cap = capLit) (ideal : Bool) (t0 : Int) (ops : List Op) :
+    holds (paramsOf c ideal) .proxyFail t0 (trace v vb c (St.init t0) ops) = true :=
+  all_clauses v vb c hM hcap ideal _ (.inr (.inr (.inr (.inr (.inr (.inl rfl)))))) t0 ops
+
+private theorem callbacks_step (v vb : Variant) (c : Cfg) (s : St) (op : Op) :
+    (step v vb c s op).1.callbacks = s.callbacks +
+      (if s.ep.status ≠ .healthy ∧ s.ep.status ≠ .unknown ∧ (step v vb c s op).1.ep.status = .healthy then 1 else 0) := by
+  obtain ⟨⟨st, f, m, lc, nc⟩, ⟨cf, clf, cla, cio, now⟩, cbs, lr⟩ := s
+  cases op with
+  | tick d => cases st <;> simp [step]
+  | proxyFail => simp [step, doProxyFail]
+  | check o =>
+    simp only [step, doCheck]
+    generalize (if (HealthCB.isOpenCall v c.breaker _).2 = true then statusOfErr ErrClass.circuitOpen else classify o) = ns
+    cases st <;> cases ns <;> simp
+  | sched o =>
+    simp only [step]
+    split
+    · cases st <;> simp
+    · simp only [doCheck]
+      generalize (if (HealthCB.isOpenCall v c.breaker _).2 = true then statusOfErr ErrClass.circuitOpen else classify o) = ns
+      cases st <;> cases ns <;> simp
+
+/-- **Recovery callback count = number of not-healthy → healthy transitions** over the whole history
+    (the initial unknown → healthy is not one: start-up discovery covers it). -/
+theorem callback_count_eq_transitions (v vb : Variant) (c : Cfg) : ∀ (ops : List Op) (s : St),
+    (run v vb c s ops).callbacks = s.callbacks + transitions s.ep.status ((trace v vb c s ops).map (·.2.status)) := by
+  intro ops
+  induction ops with
+  | nil => intro s; simp [run, trace, transitions]
+  | cons op ops ih =>
+    intro s
+    simp only [run, trace, List.map_cons, transitions, obsOf]
+    rw [ih, callbacks_step]
+    have : (if s.ep.status ≠ Status.healthy ∧ s.ep.status ≠ Status.unknown ∧ (step v vb c s op).1.ep.status = Status.healthy then 1 else 0)
+         = (if s.ep.status ≠ Status.healthy ∧ s.ep.status ≠ Status.unknown ∧ (step v vb c s op).1.ep.status = Status.healthy then 1 else 0) := rfl
+    omega
+
+/-- **A proxy-detected failure does the same bookkeeping as a failed check** (status offline, failure count,
+    multiplier, next-check delay) — for the repaired `calculateBackoff`, or whenever `check_interval ≤ 60 s`. -/
+theorem markUnhealthy_eq_failedCheck (v vb : Variant) (c : Cfg) (s : St) (hok : vb = .fixed ∨ c.interval ≤ c.cap) :
+    (doProxyFail c s).ep = (doCheck v vb c s .netErr).1.ep := by
+  obtain ⟨⟨st, f, m, lc, nc⟩, cb, cbs, lr⟩ := s
+  simp only [doProxyFail, doCheck, classify, statusOfErr, calcBackoff]
+  have hs : (if (HealthCB.isOpenCall v c.breaker cb).2 = true then Status.offline else Status.offline) = Status.offline := by split <;> rfl
+  simp only [hs]
+  by_cases hm : m ≤ 1
+  · rcases hok with rfl | hle
+    · simp [hm]
+    · cases vb <;> simp [hm] <;> omega
+  · simp [hm]
+
+/-- **Routable again on the first probe that succeeds:** in every reachable state, a check that is not
+    short-circuited (breaker closed, or its timeout has passed) and gets a fast 2xx leaves the endpoint
+    `healthy` (a routable status, `gen_routable`), with no failures, multiplier 1 and the normal interval. -/
+theorem recovers_on_first_success (v vb : Variant) (c : Cfg) (g : Ghost) (s : St) (h : CInv c g s) (o : Outcome)
+    (hdue : s.cb.isOpen = false ∨ s.cb.lastFailure + c.breaker.timeout < s.cb.now) (hok : is2xxFast o = true) :
+    let s' := (doCheck v vb c s o).1
+    s'.ep.status = .healthy ∧ s'.ep.failures = 0 ∧ s'.ep.mult = 1 ∧ s'.delay = c.interval ∧ s'.cb.isOpen = false := by
+  have hc := (classify_healthy_iff' o).mpr hok
+  obtain ⟨h1, h2, h3, h4, h5, h6, h7, h8⟩ := h
+  obtain ⟨⟨st, f, m, lc, nc⟩, ⟨cf, clf, cla, cio, now⟩, cbs, lr⟩ := s
+  simp only at h5 hdue
+  subst h5
+  cases cio
+  · simp [doCheck, HealthCB.isOpenCall, HealthCB.recordSuccess, hc, calc_succ, St.delay]; omega
+  · have hto : clf + c.breaker.timeout < now := by rcases hdue with h | h; cases h; exact h
+    simp [doCheck, HealthCB.isOpenCall, HealthCB.recordSuccess, hc, hto, calc_succ, St.delay]; omega
+
+/-- **Probe gap bound, ideal scheduler:** if every check runs exactly when it is due, two consecutive real probes
+    are never more than `60 s + breakerTimeout` apart (the production ticker adds up to its 30 s period). -/
+theorem probe_gap_bound (v vb : Variant) (c : Cfg) (hM : c.maxMult = 12) (hcap : c.cap = capLit) (h0 : 0 ≤ c.interval)
+    (hle : c.interval ≤ c.cap) (hT : 0 ≤ c.breaker.timeout) (t0 : Int) (outcomes : List Outcome) :
+    holds (paramsOf c true) .gapBound t0 (trace v vb c (St.init t0) (idealOps v vb c (St.init t0) outcomes)) = true := by
+  have key : ∀ (os : List Outcome) (g : Ghost) (s : St), CInv c g s → IInv c s →
+      holdsFrom (paramsOf c true) .gapBound g (trace v vb c s (idealOps v vb c s os)) = true := by
+    intro os
+    induction os with
+    | nil => intro g s _ _; simp [idealOps, trace, holdsFrom]
+    | cons o os ih =>
+      intro g s hc hi
+      have hs := ideal_step v vb c h0 hle hT g s o hc hi
+      simp only at hs
+      obtain ⟨ha, hb, hi'⟩ := hs
+      have hc1 := cinv_step v vb c hM g s (.tick (s.ep.nextCheck - s.cb.now).toNat) hc
+      have hc2 := cinv_step v vb c hM _ _ (.check o) hc1
+      simp only [idealOps, trace, holdsFrom, Bool.and_eq_true]
+      exact ⟨ha, hb hcap, ih _ _ hc2 hi'⟩
+  apply key outcomes _ _ (cinv_init c t0)
+  constructor <;> simp [St.init, HealthCB.init] <;> omega
+
+/-! # Instances at the configuration regenerated from the compiled code -/
+
+/-- Every clause the pinned tree satisfies, for EVERY `check_interval`, at the regenerated constants. -/
+theorem gen_all_clauses (interval : Int) (ideal : Bool) (k : Clause)
+    (hk : k = .healthyIff ∨ k = .classification ∨ k = .schedule ∨ k = .realProbe ∨ k = .callback ∨ k = .proxyFail)
+    (t0 : Int) (ops : List Op) :
+    holds (paramsOf (genCfg interval) ideal) k t0 (trace activeHealth activeBackoff (genCfg interval) (St.init t0) ops) = true := by
+  have ⟨hM, hcap, _⟩ := genCfg_facts interval
+  apply all_clauses _ _ _ hM hcap ideal k _ t0 ops
+  rcases hk with h | h | h | h | h | h <;> simp [h]
+
+theorem gen_failure_delay_capped_partial (interval : Int) (hiv : interval ≤ capLit) (ideal : Bool) (t0 : Int) (ops : List Op) :
+    holds (paramsOf (genCfg interval) ideal) .capped t0 (trace activeHealth activeBackoff (genCfg interval) (St.init t0) ops) = true := by
+  have ⟨hM, hcap, hi⟩ := genCfg_facts interval
+  exact failure_delay_capped_partial _ _ _ hM hcap (by rw [hcap, hi]; exact hiv) ideal t0 ops
+
+theorem gen_probe_gap_bound (interval : Int) (h0 : 0 ≤ interval) (hiv : interval ≤ capLit) (t0 : Int) (outcomes : List Outcome) :
+    holds (paramsOf (genCfg interval) true) .gapBound t0
+      (trace activeHealth activeBackoff (genCfg interval) (St.init t0) (idealOps activeHealth activeBackoff (genCfg interval) (St.init t0) outcomes)) = true := by
+  have ⟨hM, hcap, hi⟩ := genCfg_facts interval
+  exact probe_gap_bound _ _ _ hM hcap (by rw [hi]; exact h0) (by rw [hcap, hi]; exact hiv) (show (0:Int) ≤ genHCfg.timeout by decide) t0 outcomes
+
+/-! # Non-vacuity -/
+
+example : ((run .pinned .pinned (genCfg 5000000000) (St.init 0)
+    [.check .netErr, .tick 5000000000, .check .netErr, .tick 10000000000, .check .netErr, .tick 20000000000, .check (.http 200 false)]).ep.status) = .offline := by decide
+example : ((run .pinned .pinned (genCfg 5000000000) (St.init 0)
+    [.check .netErr, .check .netErr, .check .netErr, .tick 31000000000, .check (.http 200 false)]).callbacks) = 1 := by decide
+example : ((run .pinned .pinned (genCfg 5000000000) (St.init 0)
+    [.check .netErr, .check .netErr, .check .netErr, .check .netErr, .check .netErr]).delay) = 60000000000 := by decide
+
+/-- The delay scheduled after a failed check never exceeds the cap (pinned tree: for `check_interval ≤ 60 s`). -/
+theorem next_delay_le_cap_partial (v vb : Variant) (c : Cfg) (hM : c.maxMult = 12) (hcap : c.cap = capLit)
+    (hiv : c.interval ≤ c.cap) (ideal : Bool) (t0 : Int) (ops : List Op) :
+    holds (paramsOf c ideal) .capped t0 (trace v vb c (St.init t0) ops) = true :=
+  failure_delay_capped_partial v vb c hM hcap hiv ideal t0 ops
 
 end Olla.Props.C07
